@@ -331,7 +331,13 @@ class Unit:
                 rf = self._rf(e.file)
                 impls = rf.find_all_impls(e.header)
                 if not impls:
-                    raise Undecided('impl %s not found in %s' % (e.header, e.file))
+                    derived = _derived_default_impl(rf, e.header)
+                    if derived is None:
+                        raise Undecided('impl %s not found in %s' % (e.header, e.file))
+                    # D33: `#[derive(Default)]` on a struct with named fields IS this impl (the expansion of the derive)
+                    rf = RustFile('<derive(Default) of %s>' % e.file, derived)
+                    impls = rf.find_all_impls(e.header)
+                    self.desugar_log.append(('D33', '%s: no hand-written impl; `#[derive(Default)]` expanded to `Self { field: Default::default(), .. }`' % e.header))
                 emit_text('impl ' + _impl_header_text(impls[0]['header']) + ' {')
                 for blk in impls:   # associated types / consts of the impl are copied too
                     d1 = rf.depth[blk['body_open']] + 1
@@ -717,6 +723,30 @@ def _derive_plan(e, derives):
         elif d in ('Hash', 'BoolEnum', 'PartialOrd', 'Ord', 'Default'):
             pass  # dropped: not used by any verified body (extraction fails to type-check otherwise)
     return keep, gen
+
+
+def _derived_default_impl(rf, header):
+    """text of the impl that `#[derive(Default)]` generates for the struct named in `Default for NAME`, or None"""
+    m = re.fullmatch(r'Default for (\w+)', header.strip())
+    if not m:
+        return None
+    name = m.group(1)
+    for sm in rf.code_finditer(r'\bstruct\s+%s\b[^;{(]*\{' % re.escape(name), 0, len(rf.src)):
+        # attributes directly above the struct
+        head = rf.src[:sm.start()]
+        attrs = re.search(r'((?:\s*(?:#\[[^\]]*\]|///[^\n]*|//[^\n]*|pub(?:\([^)]*\))?))*\s*)$', head)
+        if not attrs or not re.search(r'#\[derive\([^)]*\bDefault\b[^)]*\)\]', attrs.group(1)):
+            return None
+        bo = sm.end() - 1
+        be = rf.match_brace(bo)
+        body = rf.src[bo + 1:be - 1] if rf.src[be - 1] == '}' else rf.src[bo + 1:be]
+        code = ''.join(c if rf.code[bo + 1 + i] else ' ' for i, c in enumerate(body))
+        fields = re.findall(r'(?:^|,)\s*(?:pub(?:\([^)]*\))?\s+)?(\w+)\s*:', code)
+        if not fields:
+            return None
+        return 'impl Default for %s {\n    fn default() -> Self {\n        %s { %s }\n    }\n}\n' % (
+            name, name, ', '.join('%s: Default::default()' % f_ for f_ in fields))
+    return None
 
 
 def _strip_comments(s):
